@@ -10,8 +10,15 @@ import (
 // c18.go, c20codes.go). The evidence of a property lists the note of every
 // shared rule that produced an obligation in that run.
 var sharedRuleNotes = map[string]string{
+	"registration-getter":               "reference client types answer registration getters with the field of that name; a default only where documented and only for an empty registration",
+	"credentials-from-body":             "token, device-authorization and revocation endpoints hand AuthenticateClient r.PostForm (RFC 6749 2.3.1: never the URL query); the pushed-authorization endpoint is the named exception",
+	"cache-keyed-by-location":           "the JWKS fetcher reads and writes its cache under one key containing the whole jwks_uri, and fetches that URI",
+	"clone-shares-nothing":              "Session.Clone is deepcopy.Copy(receiver) or a fresh struct none of whose pointer/map/slice/interface fields still holds the receiver's value",
+	"signature-failure-ends-parse":      "jwt.ParseWithClaims fails with the signature error; claims of an unverified token are not evaluated or merged into the error",
+	"returns-own-storage":               "Request.GetRequestForm/GetSession/GetClient return the request's own field, so writes through the getter reach the stored request",
+	"populated-before-dispatch":         "NewAccessRequest installs form, grant_type, requested scope and audience before the first handler runs and does not write the request after a handler validated it",
 	"reads-own-field":                   "configuration getters the property reads return their own field, default exactly when it is unset (zero / nil / empty) and to the documented default; no getter reads a sibling field or another getter in place of its own",
-	"membership-is-equality":            "StringInSlice / Arguments membership is whole-string equality (EqualFold on the whole element), never a prefix or substring test",
+	"membership-is-equality":            "membership helpers (StringInSlice behind Arguments.Has, ResponseModeTypes.Has, jwt.verifyAud) answer true only on whole-string equality with an element, never on a prefix or substring",
 	"grant-types-default":               "DefaultClient.GetGrantTypes defaults to exactly [authorization_code] and only when the list is empty; the getter does not write the shared client",
 	"records-unconditionally":           "DefaultSession.SetExpiresAt stores the given instant unchanged under the given key",
 	"public-flag-only":                  "DefaultClient.IsPublic returns the Public field",
